@@ -94,6 +94,14 @@ func hostFuncs(ticks *int) map[string]tengo.Object {
 		"sentinel": mk("sentinel", func(a ...tengo.Object) (tengo.Object, error) {
 			return nil, errHostSentinel
 		}),
+		// the host's own error with one of the engine's argument errors as
+		// its cause: still the host's error
+		"failargc": mk("failargc", func(a ...tengo.Object) (tengo.Object, error) {
+			return nil, fmt.Errorf("host refuses: %w (%w)", &hostErr{Code: argCode(a)}, tengo.ErrWrongNumArguments)
+		}),
+		"failargt": mk("failargt", func(a ...tengo.Object) (tengo.Object, error) {
+			return nil, fmt.Errorf("host refuses: %w (%w)", &hostErr{Code: argCode(a)}, tengo.ErrInvalidArgumentType{Name: "first", Expected: "string", Found: "int"})
+		}),
 		"oob": mk("oob", func(a ...tengo.Object) (tengo.Object, error) {
 			return nil, tengo.ErrIndexOutOfBounds
 		}),
@@ -420,6 +428,8 @@ func init() {
 	addOp(failOp{Group: "host-error", Name: "host-error:ptr-multiline", Expr: "@fail(\n\t41,\n\t2)", MsgRe: "^host failure code=41$", Host: "ptr:41"})
 	addOp(failOp{Group: "host-error", Name: "host-error:val", Expr: "@failv(9)", MsgRe: "^host value failure code=9$", Host: "val:9"})
 	addOp(failOp{Group: "host-error", Name: "host-error:wrapped", Expr: "@failw(3)", MsgRe: "^host context: host failure code=3$", Host: "wrapped:3"})
+	addOp(failOp{Group: "host-error", Name: "host-error:wraps-wrong-args", Expr: "@failargc(5)", MsgRe: "^host refuses: host failure code=5 ", Host: "wrapped:5"})
+	addOp(failOp{Group: "host-error", Name: "host-error:wraps-arg-type", Expr: "@failargt(6)", MsgRe: "^host refuses: host failure code=6 ", Host: "wrapped:6"})
 	addOp(failOp{Group: "host-error", Name: "host-error:sentinel", Expr: "@sentinel()", MsgRe: "^host sentinel failure$", Host: "sentinel"})
 	addOp(failOp{Group: "host-error", Name: "host-error:engine-sentinel", Expr: "@oob()", MsgRe: oob, Sentinel: "ErrIndexOutOfBounds"})
 
